@@ -1,5 +1,5 @@
 (* C19/Props.v — the property theorems claimed for C19, nothing else. *)
-Require Import Base.Prelude C19.GeneratedFacts C19.Model C19.ProofsMetric C19.ProofsKernel C19.ProofsParse.
+Require Import Base.Prelude C19.GeneratedFacts C19.Model C19.ProofsMetric C19.ProofsMetricR C19.ProofsKernel C19.ProofsParse.
 From Coq Require Import QArith Ascii.
 Open Scope Z_scope.
 
@@ -33,6 +33,18 @@ Proof.
   split; [apply z_euclid_sq_nonneg|]. intros p q. apply z_euclid_triangle_sq.
 Qed.
 Print Assumptions C19_euclidean_sq_is_metric.
+
+(* The formula of euclidean_distance over the real numbers is a metric: symmetric, zero exactly for
+   coincident points, triangle inequality (Cauchy-Schwarz).  Uses the standard library's real-number
+   axioms (listed by Print Assumptions and in TRUSTED). *)
+Theorem C19_euclidean_is_metric_over_R : forall ax ay bx by_ cx cy : Rdefinitions.R,
+  r_euclid ax bx ay by_ = r_euclid bx ax by_ ay /\
+  (r_euclid ax bx ay by_ = Rdefinitions.IZR 0 <-> (ax = bx /\ ay = by_)) /\
+  Rdefinitions.Rle (r_euclid ax cx ay cy) (Rdefinitions.Rplus (r_euclid ax bx ay by_) (r_euclid bx cx by_ cy)).
+Proof.
+  intros. split; [apply r_euclid_sym|]. split; [apply r_euclid_zero|apply r_euclid_triangle].
+Qed.
+Print Assumptions C19_euclidean_is_metric_over_R.
 
 (* great_circle_distance validates its arguments by exactly this decision rule (bounds are read
    from the source into GeneratedFacts.v): accepted iff |lon| <= 180 and |lat| <= 90 for both points;
